@@ -756,6 +756,8 @@ class BuiltinMixin:
 
     def x_bi_floor_to_ms(self, args, kw, st, node):
         v = args[0]
+        if v.ty.name == "Opt":
+            v = self._inner(v)
         off = v.x.get("off", 0)
         return Val(DT, v.t - ((v.t + off) % 1000), **v.x)
 
@@ -793,7 +795,10 @@ class BuiltinMixin:
         """Ghost: source index of the j-th element of a filter-comprehension result."""
         lst = args[0]
         if "sel" not in lst.x:
-            raise Unsupported("filter_sel of a list that is not a filter comprehension result")
+            if lst.ty.name != "List":
+                raise Unsupported("filter_sel of a value that is not a list")
+            # a list received from a callee (a witness of its postcondition): some fixed map, known only through that contract
+            return Val(Ty("IntMap"), z3.Function("ghost_filter_sel", I, z3.ArraySort(I, I))(lst.t))
         j = z3.Int("j!fs")
         return Val(Ty("IntMap"), self.def_array(st, j, lst.x["sel"](j)))
 
@@ -801,7 +806,9 @@ class BuiltinMixin:
         """Ghost: position in a filter-comprehension result of source index i (valid when the element was kept)."""
         lst = args[0]
         if "pos" not in lst.x:
-            raise Unsupported("filter_pos of a list that is not a filter comprehension result")
+            if lst.ty.name != "List":
+                raise Unsupported("filter_pos of a value that is not a list")
+            return Val(Ty("IntMap"), z3.Function("ghost_filter_pos", I, z3.ArraySort(I, I))(lst.t))
         j = z3.Int("j!fp")
         return Val(Ty("IntMap"), self.def_array(st, j, lst.x["pos"](j)))
 
